@@ -200,6 +200,38 @@ Section Restore.
   Theorem consumer_throw_restores h0 it hc : Inv h0 it hc -> ithrow lclose hc it = (h0, IDone, RRaise).
   Proof. intros I. unfold ithrow. rewrite (iclose_restores I). reflexivity. Qed.
 
+  (* ANY consumer behaviour: after an arbitrary sequence of next / close / throw operations the
+     generator object is still consistent with the heap h0 of its creation, so closing or dropping it
+     gives back h0; directly after a close or throw the heap IS h0 *)
+  Theorem fdrive_restores n d : forall ops h0 it h hf itf rs,
+    Inv h0 it h -> fdrive mkleaf lnext lclose prog gho n d h it ops = Some (hf, itf, rs) ->
+    Inv h0 itf hf /\ iclose hf itf = h0 /\
+    (match rev ops with (FClose | FThrow) :: _ => hf = h0 | _ => True end).
+  Proof.
+    induction ops as [|o r IH]; intros h0 it h hf itf rs I H; cbn [fdrive] in H.
+    - inversion H; subst. repeat split; auto. apply (iclose_restores I).
+    - assert (T: forall x, match rev r with (FClose | FThrow) :: _ => x = h0 | _ => True end ->
+                 (r = [] -> match o with FNext => True | _ => x = h0 end) ->
+                 match rev (o :: r) with (FClose | FThrow) :: _ => x = h0 | _ => True end).
+      { intros x A B. cbn [rev]. destruct (rev r) as [|y ys] eqn:Er.
+        - assert (r = []) by (destruct r; auto; cbn in Er; destruct (rev r); discriminate). cbn [app].
+          destruct o; auto; apply B; auto.
+        - cbn [app]. exact A. }
+      destruct o.
+      + destruct (inext n d h it) as [[[h' it'] rr]|] eqn:N; [|discriminate].
+        destruct (fdrive mkleaf lnext lclose prog gho n d h' it' r) as [[[hf' itf'] rs']|] eqn:D; [|discriminate].
+        inversion H; subst. destruct (frame_next_restores _ _ I N) as [I' _].
+        destruct (IH _ _ _ _ _ _ I' D) as [A [B C]]. repeat split; auto. apply T; auto.
+      + destruct (fdrive mkleaf lnext lclose prog gho n d (iclose h it) IDone r) as [[[hf' itf'] rs']|] eqn:D; [|discriminate].
+        inversion H; subst. rewrite (iclose_restores I) in D.
+        destruct (IH _ _ _ _ _ _ (Inv_done h0) D) as [A [B C]]. repeat split; auto. apply T; auto.
+        intros ->. cbn [fdrive] in D. inversion D; reflexivity.
+      + destruct (fdrive mkleaf lnext lclose prog gho n d (iclose h it) IDone r) as [[[hf' itf'] rs']|] eqn:D; [|discriminate].
+        inversion H; subst. rewrite (iclose_restores I) in D.
+        destruct (IH _ _ _ _ _ _ (Inv_done h0) D) as [A [B C]]. repeat split; auto. apply T; auto.
+        intros ->. cbn [fdrive] in D. inversion D; reflexivity.
+  Qed.
+
   (* a frame (not a leaf) that is entered (recursion limit not yet reached) and does not yield
      has ALREADY restored the heap when it returns or when the exception leaves it: every
      enclosing loop was unwound on the way out *)
